@@ -1,154 +1,227 @@
 package main
 
-func init() {
-	register(&CheckSpec{Prop: "C01", Runs: func(tier string) []RunSpec {
-		o := AlphaOpts{RespKinds: []string{"ok", "bad", "noout"}, CtxOps: []string{"pause", "start", "kill"},
-			Updates: []CtxUpdate{updTotalUp}, Withdraw: []string{"O1:", "O2:P2"}}
-		if tier == "quick" {
-			return []RunSpec{
-				{Name: "life-one+rep2+poor", Sc: scLife(defaultParams(), []Template{tOne, tRep2, tPoor}, o, 8, 5, 2), Oracles: []Oracle{oracleC01{}}},
-				{Name: "price-subunit+zero", Sc: scPrice(defaultParams(), "p1v", "p0", []Template{tOne, tRep2}, o, 8, 5, 2), Oracles: []Oracle{oracleC01{}}},
-			}
-		}
-		return []RunSpec{
-			{Name: "life-one+rep2+poor", Sc: scLife(defaultParams(), []Template{tOne, tRep2, tPoor}, o, 10, 6, 3), Oracles: []Oracle{oracleC01{}}},
-		}
-	}})
+// Registration of the per-property checks: which scenarios (runs) each property's oracle is evaluated on.
+// The lifecycle properties share a library of runs (lifeRuns) so that a behaviour one run reaches is seen
+// by every oracle that could object to it; each property adds runs aimed at its own clauses.
+
+type base struct {
+	Name string
+	Sc   func() *Scenario
 }
 
-func init() {
-	lifeO := AlphaOpts{RespKinds: []string{"ok", "bad", "noout"}, CtxOps: []string{"pause", "start", "kill"},
-		Updates: []CtxUpdate{updTotalUp}, Withdraw: []string{"O1:", "O2:P2"}}
-	register(&CheckSpec{Prop: "C02", Runs: func(tier string) []RunSpec {
-		d, b, m := 8, 5, 2
-		if tier == "thorough" {
-			d, b, m = 10, 6, 3
-		}
-		return []RunSpec{
-			{Name: "life-one+rep2+poor", Sc: scLife(defaultParams(), []Template{tOne, tRep2, tPoor}, lifeO, d, b, m), Oracles: []Oracle{oracleC02{}}},
-			{Name: "price-subunit+zero", Sc: scPrice(paramSet("0.1", "0.001"), "p1v", "p0", []Template{tOne, tRep2}, lifeO, d, b, m), Oracles: []Oracle{oracleC02{}}},
-		}
-	}})
-	register(&CheckSpec{Prop: "C03", Runs: func(tier string) []RunSpec {
-		d, b, m := 7, 4, 3
-		if tier == "thorough" {
-			d, b, m = 9, 5, 4
-		}
-		return []RunSpec{
-			{Name: "bind-ops+slash", Sc: scBind(defaultParams(), bindOpsFull(), []Template{tSlash}, []string{"bad"}, d, b, m), Oracles: []Oracle{oracleC03{}}},
-		}
-	}})
-	register(&CheckSpec{Prop: "C04", Runs: func(tier string) []RunSpec {
-		d, b, m := 7, 4, 3
-		if tier == "thorough" {
-			d, b, m = 9, 5, 4
-		}
-		return []RunSpec{
-			{Name: "bind-ops+slash", Sc: scBind(defaultParams(), bindOpsFull(), []Template{tSlash}, []string{"bad", "ok"}, d, b, m), Oracles: []Oracle{oracleC04{}}},
-			{Name: "life-slash-paths", Sc: scLife(defaultParams(), []Template{tOne, tRep2, tSuper}, lifeO, d+1, b+1, 2), Oracles: []Oracle{oracleC04{}}},
-		}
-	}})
-	register(&CheckSpec{Prop: "C13", Runs: func(tier string) []RunSpec {
-		d, b, m := 7, 3, 4
-		if tier == "thorough" {
-			d, b, m = 9, 4, 5
-		}
-		return []RunSpec{
-			{Name: "fees", Sc: scFees(paramSet("0.1", "0.001"), true, d, b, m), Oracles: []Oracle{oracleC13{}}},
-		}
-	}})
-	register(&CheckSpec{Prop: "C14", Runs: func(tier string) []RunSpec {
-		d, b, m := 7, 4, 3
-		if tier == "thorough" {
-			d, b, m = 9, 5, 4
-		}
-		return []RunSpec{
-			{Name: "bind-ops+slash", Sc: scBind(defaultParams(), bindOpsFull(), []Template{tSlash}, []string{"bad"}, d, b, m), Oracles: []Oracle{oracleC14{}}},
-		}
-	}})
+var (
+	updFreq3Tot2 = CtxUpdate{Name: "freq3total2", Freq: 3, Total: 2}
+	updFreq1Tot2 = CtxUpdate{Name: "freq1total2", Freq: 1, Total: 2}
+	tGap         = Template{Name: "gap", Consumer: "C1", Service: "a", Providers: []string{"P2"}, Cap: 5, Timeout: 2, Repeated: true, Freq: 3, Total: -1}
+	tOne2        = Template{Name: "one2", Consumer: "C1", Service: "a", Providers: []string{"P1", "P2"}, Cap: 5, Timeout: 2}
+	tCapLow      = Template{Name: "caplow", Consumer: "C1", Service: "a", Providers: []string{"P1", "P2"}, Cap: 1, Timeout: 1, Repeated: true, Freq: 1, Total: 2}
+)
+
+func bump(tier string, d, b, m int) (int, int, int) {
+	if tier == "thorough" {
+		return d + 2, b + 1, m + 1
+	}
+	return d, b, m
 }
 
-func init() {
-	lifeO := AlphaOpts{RespKinds: []string{"ok", "bad", "noout"}, CtxOps: []string{"pause", "start", "kill"},
-		Updates: []CtxUpdate{updTotalUp}, Withdraw: []string{"O1:"}}
+// lifeRuns is the shared library of lifecycle scenarios.
+func lifeRuns(tier string) []base {
+	mainO := AlphaOpts{RespKinds: []string{"ok", "bad", "noout"}, CtxOps: []string{"pause", "start", "kill"},
+		Updates: []CtxUpdate{updTotalUp, updCap1}, Withdraw: []string{"O1:", "O1:P1", "O2:", "O2:P2"}}
+	gapO := AlphaOpts{RespKinds: []string{"ok"}, CtxOps: []string{"pause", "start", "kill"},
+		Updates: []CtxUpdate{updFreq3Tot2, updTotalInf, updTimeout2}}
 	ctlO := AlphaOpts{RespKinds: []string{"ok"}, CtxOps: []string{"pause", "start", "kill"},
-		Updates: []CtxUpdate{updTotalUp, updTotalInf, updTimeout2, updFreq2}}
+		Updates: []CtxUpdate{updTotalUp, updTotalInf, updTimeout2, updFreq2, updFreq1Tot2}}
 	modO := AlphaOpts{RespKinds: []string{"ok", "bad", "noout"}, ModOps: []string{"mpause", "mstart", "mkill"},
 		ModUpdates: []CtxUpdate{{Name: "total3", Total: 3}}}
-	dbm := func(tier string, d, b, m int) (int, int, int) {
-		if tier == "thorough" {
-			return d + 2, b + 1, m + 1
-		}
-		return d, b, m
+	d, b, m := bump(tier, 8, 5, 2)
+	return []base{
+		{"life-main", func() *Scenario { return scLife(defaultParams(), []Template{tOne, tRep2, tPoor}, mainO, d, b, m) }},
+		{"life-gap", func() *Scenario {
+			return withFunds(scLife(paramSet("0.1", "0.001"), []Template{tGap, tOne2}, gapO, d+1, b+1, m), 40, 5)
+		}},
+		{"life-control", func() *Scenario {
+			return withFunds(scLife(paramSet("0.1", "0.001"), []Template{tOne, tRep2, tInf}, ctlO, d, b, m), 40, 5)
+		}},
+		{"life-caplow-flipped", func() *Scenario {
+			return flip(scLife(defaultParams(), []Template{tCapLow, tLong}, AlphaOpts{RespKinds: []string{"ok", "bad"}, CtxOps: []string{"pause", "start"},
+				Updates: []CtxUpdate{updProvP2}, Withdraw: []string{"O2:"}}, d, b, m))
+		}},
+		{"price-subunit+zero", func() *Scenario { return scPrice(paramSet("0.1", "0.001"), "p1v", "p0", []Template{tOne, tRep2}, mainO, d, b, m) }},
+		{"mod-main", func() *Scenario { return scMod(defaultParams(), []Template{tMod1, tModPoor, tModCap}, modO, d, b, m) }},
 	}
-	register(&CheckSpec{Prop: "C06", Runs: func(tier string) []RunSpec {
-		d, b, m := dbm(tier, 8, 5, 2)
-		o := AlphaOpts{RespKinds: []string{"ok", "bad"}, CtxOps: []string{"pause", "start"}, Updates: []CtxUpdate{updCap1, updProvP2},
-			BindOps: []Action{actDisable("a", "P1", "O1"), actEnable("a", "P1", "O1", 0), actUpdate("a", "P2", "O2", 0, "", 2), actUpdate("a", "P1", "O1", 30, "p20", 0)}}
-		return []RunSpec{
-			{Name: "life-eligibility", Sc: scLife(defaultParams(), []Template{tOne, tRep2, tPoor}, o, d, b, m), Oracles: []Oracle{oracleC06{}}},
-			{Name: "life-eligibility-flipped-ids", Sc: flip(scLife(defaultParams(), []Template{tRep2, tLong}, o, d, b, m)), Oracles: []Oracle{oracleC06{}}},
-			{Name: "mod-thresholds", Sc: scMod(defaultParams(), []Template{tMod2, tModCap, tModPoor}, modO, d-1, b, m), Oracles: []Oracle{oracleC06{}}},
-		}
-	}})
-	register(&CheckSpec{Prop: "C07", Runs: func(tier string) []RunSpec {
-		d, b, m := dbm(tier, 8, 5, 2)
-		o := AlphaOpts{RespKinds: []string{"ok", "bad"}, BindOps: []Action{actUpdate("a", "P1", "O1", 0, "p1t", 0), actUpdate("a", "P2", "O2", 0, "p3vv", 0)}}
-		return []RunSpec{
-			{Name: "price-volume", Sc: withFunds(scPrice(paramSet("0.1", "0.001"), "p2v", "p3vv", []Template{tRep2, tLong, tSuper}, o, d, b, m), 30, 5), Oracles: []Oracle{oracleC07{}}, Mon: MonFlags{Vol: true}},
-			{Name: "price-time+subunit", Sc: withFunds(scPrice(paramSet("0.1", "0.001"), "p4t", "p1v", []Template{tRep2, tInf}, o, d, b, m), 30, 5), Oracles: []Oracle{oracleC07{}}, Mon: MonFlags{Vol: true}},
-		}
-	}})
-	register(&CheckSpec{Prop: "C08", Runs: func(tier string) []RunSpec {
-		d, b, m := dbm(tier, 8, 5, 2)
-		o := AlphaOpts{RespKinds: []string{"ok", "bad", "noout"}, RespWrong: true, CtxOps: []string{"pause", "kill"}, Updates: []CtxUpdate{updTimeout2}}
-		return []RunSpec{
-			{Name: "life-timeouts-1-2", Sc: withFunds(scLife(paramSet("0.1", "0.001"), []Template{tOne, tLong}, o, d, b, m), 30, 5), Oracles: []Oracle{oracleC08{}}, Mon: MonFlags{Req: true}},
-			{Name: "life-timeout-3", Sc: withFunds(scLife(paramSet("0.1", "0.001"), []Template{{Name: "t3", Consumer: "C1", Service: "a", Providers: []string{"P1", "P2"}, Cap: 5, Timeout: 3}}, o, d, b, m+1), 30, 5), Oracles: []Oracle{oracleC08{}}, Mon: MonFlags{Req: true}},
-		}
-	}})
-	register(&CheckSpec{Prop: "C09", Runs: func(tier string) []RunSpec {
-		d, b, m := dbm(tier, 8, 5, 2)
-		return []RunSpec{
-			{Name: "life-lifecycle", Sc: scLife(defaultParams(), []Template{tOne, tRep2, tPoor}, ctlO, d, b, m), Oracles: []Oracle{oracleC09{}}},
-			{Name: "mod-lifecycle", Sc: scMod(defaultParams(), []Template{tMod1, tModPoor}, modO, d, b, m), Oracles: []Oracle{oracleC09{}}},
-		}
-	}})
-	register(&CheckSpec{Prop: "C10", Runs: func(tier string) []RunSpec {
-		d, b, m := dbm(tier, 9, 7, 2)
-		return []RunSpec{
-			{Name: "cadence-rep2+inf", Sc: withFunds(scLife(paramSet("0.1", "0.001"), []Template{tRep2, tInf}, ctlO, d, b, m), 40, 5), Oracles: []Oracle{oracleC10{}}, Mon: MonFlags{Ctx: true}},
-			{Name: "cadence-rep1+long+f3", Sc: withFunds(scLife(paramSet("0.1", "0.001"), []Template{tRep1, tLong, tF3}, AlphaOpts{CtxOps: []string{"pause", "start"}, Updates: []CtxUpdate{updTotalUp}}, d, b, m), 40, 5), Oracles: []Oracle{oracleC10{}}, Mon: MonFlags{Ctx: true}},
-			{Name: "frequency-boundaries", Sc: withFunds(scLife(paramSet("0.1", "0.001"), []Template{tHuge, tMax, tBig}, AlphaOpts{CtxOps: []string{"pause", "start"}}, 5, 4, 2), 40, 5), Oracles: []Oracle{oracleC10{}}, Mon: MonFlags{Ctx: true}},
-		}
-	}})
-	register(&CheckSpec{Prop: "C11", Runs: func(tier string) []RunSpec {
-		d, b, m := dbm(tier, 9, 6, 2)
-		return []RunSpec{
-			{Name: "life-events", Sc: withFunds(scLife(paramSet("0.1", "0.001"), []Template{tRep2, tInf, tPoor}, ctlO, d, b, m), 40, 1), Oracles: []Oracle{oracleC11{}}},
-			{Name: "frequency-boundaries", Sc: withFunds(scLife(paramSet("0.1", "0.001"), []Template{tHuge, tMax, tBig}, AlphaOpts{CtxOps: []string{"pause", "start"}}, 5, 4, 2), 40, 5), Oracles: []Oracle{oracleC11{}}},
-		}
-	}})
-	register(&CheckSpec{Prop: "C12", Runs: func(tier string) []RunSpec {
-		d, b, m := dbm(tier, 8, 5, 2)
-		return []RunSpec{
-			{Name: "mod-callbacks", Sc: scMod(defaultParams(), []Template{tMod1, tMod2, tModPoor}, modO, d, b, m), Oracles: []Oracle{oracleC12{}}, Mon: MonFlags{CB: true}},
-			{Name: "mod-callbacks-oneshot+cap", Sc: scMod(defaultParams(), []Template{tModOne, tModCap}, modO, d, b, m+1), Oracles: []Oracle{oracleC12{}}, Mon: MonFlags{CB: true}},
-			{Name: "life-bookkeeping", Sc: scLife(defaultParams(), []Template{tOne, tRep2}, lifeO, d, b, m), Oracles: []Oracle{oracleC12{}}},
-		}
-	}})
-	register(&CheckSpec{Prop: "C16", Runs: func(tier string) []RunSpec {
-		d, b, m := dbm(tier, 8, 6, 2)
-		return []RunSpec{
-			{Name: "life-cleanup", Sc: scLife(defaultParams(), []Template{tOne, tRep2, tPoor}, ctlO, d, b, m), Oracles: []Oracle{oracleC16{}}},
-			{Name: "mod-cleanup", Sc: scMod(defaultParams(), []Template{tMod1, tModCap}, modO, d, b, m), Oracles: []Oracle{oracleC16{}}},
-		}
-	}})
 }
 
-func flip(sc *Scenario) *Scenario { sc.FlipIDs = true; return sc }
+func runsOf(bs []base, oracles []Oracle, mon MonFlags, names ...string) []RunSpec {
+	var out []RunSpec
+	for _, b := range bs {
+		if len(names) > 0 {
+			keep := false
+			for _, n := range names {
+				if n == b.Name {
+					keep = true
+				}
+			}
+			if !keep {
+				continue
+			}
+		}
+		out = append(out, RunSpec{Name: b.Name, Sc: b.Sc(), Oracles: oracles, Mon: mon})
+	}
+	return out
+}
 
 func init() {
+	register(&CheckSpec{Prop: "C01", Runs: func(tier string) []RunSpec {
+		o := []Oracle{oracleC01{}}
+		runs := runsOf(lifeRuns(tier), o, MonFlags{})
+		d, b, m := bump(tier, 7, 4, 3)
+		runs = append(runs, RunSpec{Name: "fees", Sc: scFees(paramSet("0.1", "0.001"), false, d, b, m), Oracles: o})
+		return runs
+	}})
+	register(&CheckSpec{Prop: "C02", Runs: func(tier string) []RunSpec {
+		o := []Oracle{oracleC02{}}
+		runs := runsOf(lifeRuns(tier), o, MonFlags{})
+		d, b, m := bump(tier, 7, 4, 3)
+		runs = append(runs, RunSpec{Name: "fees", Sc: scFees(paramSet("0.5", "0.001"), false, d, b, m), Oracles: o})
+		if tier == "thorough" {
+			for _, tax := range []string{"0", "0.34", "0.99"} {
+				ps := paramSet(tax, "0.5")
+				runs = append(runs, RunSpec{Name: "life-main-tax" + tax, Sc: scLife(ps, []Template{tOne, tRep2, tPoor}, AlphaOpts{RespKinds: []string{"ok", "bad", "noout"}, CtxOps: []string{"pause", "kill"}, Withdraw: []string{"O1:", "O2:P2"}}, 9, 5, 2), Oracles: o})
+			}
+		}
+		return runs
+	}})
+	register(&CheckSpec{Prop: "C03", Runs: func(tier string) []RunSpec {
+		d, b, m := bump(tier, 7, 4, 3)
+		o := []Oracle{oracleC03{}}
+		runs := []RunSpec{
+			{Name: "bind-ops+slash", Sc: scBind(defaultParams(), bindOpsFull(), []Template{tSlash}, []string{"bad"}, d, b, m), Oracles: o},
+			{Name: "bind-ops+two-failures", Sc: scBind(paramSet("0.1", "0.001"), bindOpsSmall(), []Template{tSlash2}, []string{"bad", "ok"}, d+1, b+1, 2), Oracles: o},
+		}
+		runs = append(runs, runsOf(lifeRuns(tier), o, MonFlags{}, "life-main")...)
+		if tier == "thorough" {
+			for _, sl := range []string{"0", "1"} {
+				runs = append(runs, RunSpec{Name: "bind-ops+slash" + sl, Sc: scBind(paramSet("0.5", sl), bindOpsFull(), []Template{tSlash}, []string{"bad"}, d, b, m), Oracles: o})
+			}
+		}
+		return runs
+	}})
+	register(&CheckSpec{Prop: "C04", Runs: func(tier string) []RunSpec {
+		d, b, m := bump(tier, 7, 4, 3)
+		o := []Oracle{oracleC04{}}
+		runs := []RunSpec{
+			{Name: "bind-ops+slash", Sc: scBind(defaultParams(), bindOpsFull(), []Template{tSlash}, []string{"bad", "ok"}, d, b, m), Oracles: o},
+			{Name: "bind-ops+two-failures", Sc: scBind(paramSet("0.1", "0.001"), bindOpsSmall(), []Template{tSlash2}, []string{"bad", "ok"}, d+1, b+1, 2), Oracles: o},
+			{Name: "life-super", Sc: scLife(defaultParams(), []Template{tOne, tSuper}, AlphaOpts{RespKinds: []string{"ok", "bad"}, CtxOps: []string{"kill"}}, d+1, b+1, 2), Oracles: o},
+		}
+		runs = append(runs, runsOf(lifeRuns(tier), o, MonFlags{}, "life-main", "life-gap", "mod-main")...)
+		if tier == "thorough" {
+			for _, sl := range []string{"0", "0.001", "1"} {
+				runs = append(runs, RunSpec{Name: "bind-ops+slash" + sl, Sc: scBind(paramSet("0.5", sl), bindOpsFull(), []Template{tSlash}, []string{"bad"}, d, b, m), Oracles: o})
+			}
+		}
+		return runs
+	}})
+	register(&CheckSpec{Prop: "C06", Runs: func(tier string) []RunSpec {
+		d, b, m := bump(tier, 8, 5, 2)
+		o := []Oracle{oracleC06{}}
+		eo := AlphaOpts{RespKinds: []string{"ok", "bad"}, CtxOps: []string{"pause", "start"}, Updates: []CtxUpdate{updCap1, updProvP2},
+			BindOps: []Action{actDisable("a", "P1", "O1"), actEnable("a", "P1", "O1", 0), actUpdate("a", "P2", "O2", 0, "", 2), actUpdate("a", "P1", "O1", 30, "p20", 0)}}
+		modO := AlphaOpts{RespKinds: []string{"ok", "bad"}, ModOps: []string{"mpause", "mstart"}, ModUpdates: []CtxUpdate{{Name: "thr2", Threshold: 2}}}
+		runs := []RunSpec{
+			{Name: "life-eligibility", Sc: scLife(defaultParams(), []Template{tOne, tRep2, tPoor}, eo, d, b, m), Oracles: o},
+			{Name: "life-eligibility-flipped-ids", Sc: flip(scLife(defaultParams(), []Template{tRep2, tLong}, eo, d, b, m)), Oracles: o},
+			{Name: "mod-thresholds", Sc: scMod(defaultParams(), []Template{tMod2, tModCap, tModPoor}, modO, d-1, b, m), Oracles: o},
+		}
+		runs = append(runs, runsOf(lifeRuns(tier), o, MonFlags{}, "life-main", "price-subunit+zero", "life-caplow-flipped")...)
+		return runs
+	}})
+	register(&CheckSpec{Prop: "C07", Runs: func(tier string) []RunSpec {
+		d, b, m := bump(tier, 8, 5, 2)
+		o := []Oracle{oracleC07{}}
+		po := AlphaOpts{RespKinds: []string{"ok", "bad"}, BindOps: []Action{actUpdate("a", "P1", "O1", 0, "p1t", 0), actUpdate("a", "P2", "O2", 0, "p3vv", 0)}}
+		runs := []RunSpec{
+			{Name: "price-volume", Sc: withFunds(scPrice(paramSet("0.1", "0.001"), "p2v", "p3vv", []Template{tRep2, tLong, tSuper}, po, d, b, m), 30, 5), Oracles: o, Mon: MonFlags{Vol: true}},
+			{Name: "price-time+subunit", Sc: withFunds(scPrice(paramSet("0.1", "0.001"), "p4t", "p1v", []Template{tRep2, tInf}, po, d, b, m), 30, 5), Oracles: o, Mon: MonFlags{Vol: true}},
+		}
+		runs = append(runs, runsOf(lifeRuns(tier), o, MonFlags{Vol: true}, "life-main", "price-subunit+zero")...)
+		return runs
+	}, Pure: priceGrid})
+	register(&CheckSpec{Prop: "C08", Runs: func(tier string) []RunSpec {
+		d, b, m := bump(tier, 8, 5, 2)
+		o := []Oracle{oracleC08{}}
+		wo := AlphaOpts{RespKinds: []string{"ok", "bad", "noout"}, RespWrong: true, CtxOps: []string{"pause", "start", "kill"}, Updates: []CtxUpdate{updTimeout2}}
+		runs := []RunSpec{
+			{Name: "life-timeouts-1-2", Sc: withFunds(scLife(paramSet("0.1", "0.001"), []Template{tOne, tLong}, wo, d, b, m), 30, 5), Oracles: o, Mon: MonFlags{Req: true}},
+			{Name: "life-timeout-3", Sc: withFunds(scLife(paramSet("0.1", "0.001"), []Template{{Name: "t3", Consumer: "C1", Service: "a", Providers: []string{"P1", "P2"}, Cap: 5, Timeout: 3}}, wo, d, b, m+1), 30, 5), Oracles: o, Mon: MonFlags{Req: true}},
+		}
+		runs = append(runs, runsOf(lifeRuns(tier), o, MonFlags{Req: true}, "life-main", "life-gap", "mod-main")...)
+		return runs
+	}})
+	register(&CheckSpec{Prop: "C09", Runs: func(tier string) []RunSpec {
+		return runsOf(lifeRuns(tier), []Oracle{oracleC09{}}, MonFlags{})
+	}})
+	register(&CheckSpec{Prop: "C10", Runs: func(tier string) []RunSpec {
+		d, b, m := bump(tier, 9, 7, 2)
+		o := []Oracle{oracleC10{}}
+		mf := MonFlags{Ctx: true}
+		ctlO := AlphaOpts{RespKinds: []string{"ok"}, CtxOps: []string{"pause", "start", "kill"}, Updates: []CtxUpdate{updTotalUp, updTotalInf, updTimeout2, updFreq2}}
+		runs := []RunSpec{
+			{Name: "cadence-rep2+inf", Sc: withFunds(scLife(paramSet("0.1", "0.001"), []Template{tRep2, tInf}, ctlO, d, b, m), 40, 5), Oracles: o, Mon: mf},
+			{Name: "cadence-rep1+long+f3", Sc: withFunds(scLife(paramSet("0.1", "0.001"), []Template{tRep1, tLong, tF3}, AlphaOpts{RespKinds: []string{"ok"}, CtxOps: []string{"pause", "start"}, Updates: []CtxUpdate{updTotalUp}}, d, b, m), 40, 5), Oracles: o, Mon: mf},
+			{Name: "frequency-boundaries", Sc: withFunds(scLife(paramSet("0.1", "0.001"), []Template{tHuge, tMax, tBig}, AlphaOpts{CtxOps: []string{"pause", "start"}}, 5, 4, 2), 40, 5), Oracles: o, Mon: mf},
+		}
+		runs = append(runs, runsOf(lifeRuns(tier), o, mf, "life-main", "life-gap", "life-control", "mod-main")...)
+		return runs
+	}})
+	register(&CheckSpec{Prop: "C11", Runs: func(tier string) []RunSpec {
+		d, b, m := bump(tier, 9, 6, 2)
+		o := []Oracle{oracleC11{}}
+		ctlO := AlphaOpts{RespKinds: []string{"ok"}, CtxOps: []string{"pause", "start", "kill"}, Updates: []CtxUpdate{updTotalUp, updTotalInf, updTimeout2, updFreq2}}
+		runs := []RunSpec{
+			{Name: "life-events", Sc: withFunds(scLife(paramSet("0.1", "0.001"), []Template{tRep2, tInf, tPoor}, ctlO, d, b, m), 40, 1), Oracles: o},
+			{Name: "frequency-boundaries", Sc: withFunds(scLife(paramSet("0.1", "0.001"), []Template{tHuge, tMax, tBig}, AlphaOpts{CtxOps: []string{"pause", "start"}}, 5, 4, 2), 40, 5), Oracles: o},
+		}
+		runs = append(runs, runsOf(lifeRuns(tier), o, MonFlags{}, "life-main", "life-gap", "life-control", "mod-main")...)
+		return runs
+	}})
+	register(&CheckSpec{Prop: "C12", Runs: func(tier string) []RunSpec {
+		d, b, m := bump(tier, 8, 5, 2)
+		o := []Oracle{oracleC12{}}
+		modO := AlphaOpts{RespKinds: []string{"ok", "bad", "noout"}, ModOps: []string{"mpause", "mstart", "mkill"}, ModUpdates: []CtxUpdate{{Name: "total3", Total: 3}}}
+		runs := []RunSpec{
+			{Name: "mod-callbacks", Sc: scMod(defaultParams(), []Template{tMod1, tMod2, tModPoor}, modO, d, b, m), Oracles: o, Mon: MonFlags{CB: true}},
+			{Name: "mod-callbacks-oneshot+cap", Sc: scMod(defaultParams(), []Template{tModOne, tModCap}, modO, d, b, m+1), Oracles: o, Mon: MonFlags{CB: true}},
+		}
+		runs = append(runs, runsOf(lifeRuns(tier), o, MonFlags{CB: true}, "life-main", "life-gap", "mod-main")...)
+		return runs
+	}})
+	register(&CheckSpec{Prop: "C13", Runs: func(tier string) []RunSpec {
+		d, b, m := bump(tier, 7, 3, 4)
+		o := []Oracle{oracleC13{}}
+		runs := []RunSpec{{Name: "fees", Sc: scFees(paramSet("0.1", "0.001"), true, d, b, m), Oracles: o}}
+		runs = append(runs, runsOf(lifeRuns(tier), o, MonFlags{}, "life-main")...)
+		return runs
+	}})
+	register(&CheckSpec{Prop: "C14", Runs: func(tier string) []RunSpec {
+		d, b, m := bump(tier, 7, 4, 3)
+		o := []Oracle{oracleC14{}}
+		runs := []RunSpec{
+			{Name: "bind-ops+slash", Sc: scBind(defaultParams(), bindOpsFull(), []Template{tSlash}, []string{"bad"}, d, b, m), Oracles: o},
+			{Name: "bind-ops+two-failures", Sc: scBind(paramSet("0.1", "0.25"), bindOpsSmall(), []Template{tSlash2}, []string{"bad", "ok"}, d+1, b+1, 2), Oracles: o},
+		}
+		runs = append(runs, runsOf(lifeRuns(tier), o, MonFlags{}, "life-main")...)
+		if tier == "thorough" {
+			p := defaultParams()
+			p.MinDeposit, p.Multiple, p.Name = 3, 5, "min3-mult5"
+			runs = append(runs, RunSpec{Name: "bind-ops-other-minimum", Sc: scBind(p, bindOpsFull(), []Template{tSlash}, []string{"bad"}, d, b, m), Oracles: o})
+		}
+		return runs
+	}})
+	register(&CheckSpec{Prop: "C16", Runs: func(tier string) []RunSpec {
+		return runsOf(lifeRuns(tier), []Oracle{oracleC16{}}, MonFlags{})
+	}})
 	register(&CheckSpec{Prop: "C05", Runs: func(tier string) []RunSpec {
 		d := 0
 		if tier == "thorough" {
@@ -158,42 +231,60 @@ func init() {
 		modW := AlphaOpts{RespKinds: []string{"ok"}, CtxOps: []string{"pause", "start", "kill"}, Updates: []CtxUpdate{updTotalUp}, ConsumerOnMod: true,
 			ModOps: []string{"mpause", "mstart", "mkill"}}
 		o := []Oracle{oracleC05{}}
-		return []RunSpec{
+		runs := []RunSpec{
 			{Name: "bind-auth", Sc: scBindAuth(defaultParams(), 6+d, 3, 4), Oracles: o},
 			{Name: "life-auth", Sc: scLife(defaultParams(), []Template{tOne, tRep2, tPoor}, lifeW, 7+d, 4, 2), Oracles: o},
 			{Name: "mod-auth", Sc: scMod(defaultParams(), []Template{tMod1, tModPoor}, modW, 7+d, 4, 2), Oracles: o},
 			{Name: "fees-auth", Sc: scFees(paramSet("0.1", "0.001"), true, 6+d, 3, 3), Oracles: o},
 			{Name: "msvc-reserved", Sc: scMsvc(defaultParams(), 5+d, 3, 3), Oracles: o},
 		}
+		runs = append(runs, runsOf(lifeRuns(tier), o, MonFlags{}, "life-main", "life-gap", "life-control")...)
+		return runs
 	}})
 	register(&CheckSpec{Prop: "C15", Runs: func(tier string) []RunSpec {
 		d := 0
 		if tier == "thorough" {
 			d = 2
 		}
+		o := []Oracle{oracleC15{}}
 		return []RunSpec{
-			{Name: "names", Sc: scNames(defaultParams(), 6+d, 3, 4+d), Oracles: []Oracle{oracleC15{}}},
+			{Name: "names", Sc: scNames(defaultParams(), 6+d, 3, 4+d), Oracles: o},
 			{Name: "later-operations", Sc: scLife(defaultParams(), []Template{tOne, tRep2}, AlphaOpts{RespKinds: []string{"ok", "bad"}, CtxOps: []string{"pause", "start", "kill"}, Withdraw: []string{"O1:"},
-				BindOps: []Action{actDisable("a", "P1", "O1"), actEnable("a", "P1", "O1", 0), actUpdate("a", "P2", "O2", 0, "p3vv", 0)}}, 7+d, 4, 2), Oracles: []Oracle{oracleC15{}}},
+				BindOps: []Action{actDisable("a", "P1", "O1"), actEnable("a", "P1", "O1", 0), actUpdate("a", "P2", "O2", 0, "p3vv", 0)}}, 7+d, 4, 2), Oracles: o},
+			{Name: "bind-ops+slash", Sc: scBind(defaultParams(), bindOpsFull(), []Template{tSlash}, []string{"bad"}, 6+d, 4, 3), Oracles: o},
 		}
 	}})
-}
-
-func init() {
 	register(&CheckSpec{Prop: "C20", Runs: func(tier string) []RunSpec {
 		d := 0
 		if tier == "thorough" {
 			d = 2
 		}
-		lifeO := AlphaOpts{RespKinds: []string{"ok", "bad", "noout"}, CtxOps: []string{"pause", "start", "kill"},
-			Updates: []CtxUpdate{updTotalUp, updTimeout2}, Withdraw: []string{"O1:", "O2:P2"}}
-		modO := AlphaOpts{RespKinds: []string{"ok", "bad"}, ModOps: []string{"mpause", "mstart", "mkill"}}
 		o := []Oracle{oracleC20{}}
-		return []RunSpec{
-			{Name: "life-determinism+panics", Sc: scLife(defaultParams(), []Template{tOne, tRep2, tPoor}, lifeO, 7+d, 5, 2), Oracles: o, DetCheck: true},
-			{Name: "mod-determinism+panics", Sc: scMod(defaultParams(), []Template{tMod1, tModPoor}, modO, 7+d, 5, 2), Oracles: o, DetCheck: true},
-			{Name: "fees-panics", Sc: scFees(paramSet("0.1", "0.001"), true, 6+d, 3, 3), Oracles: o, DetCheck: true},
-			{Name: "bind-panics", Sc: scBind(defaultParams(), bindOpsFull(), []Template{tSlash2}, []string{"bad"}, 6+d, 4, 3), Oracles: o, DetCheck: true},
+		var runs []RunSpec
+		for _, r := range runsOf(lifeRuns(tier), o, MonFlags{}, "life-main", "life-gap", "mod-main") {
+			r.Sc.Depth--
+			r.DetCheck = true
+			runs = append(runs, r)
 		}
+		runs = append(runs,
+			RunSpec{Name: "fees-panics", Sc: scFees(paramSet("0.1", "0.001"), true, 6+d, 3, 3), Oracles: o, DetCheck: true},
+			RunSpec{Name: "bind-panics", Sc: scBind(defaultParams(), bindOpsFull(), []Template{tSlash2}, []string{"bad"}, 6+d, 4, 3), Oracles: o, DetCheck: true},
+			RunSpec{Name: "names-panics", Sc: scNames(defaultParams(), 6+d, 3, 4), Oracles: o, DetCheck: true},
+		)
+		return runs
 	}, Pure: inputGrid})
+}
+
+func flip(sc *Scenario) *Scenario { sc.FlipIDs = true; return sc }
+
+// bindOpsSmall: two bound providers with a comfortable deposit, disable/enable/refund — for multi-failure slashes.
+func bindOpsSmall() []Action {
+	return []Action{
+		actBind("a", "P1", "O1", 40, "p5", 1),
+		actBind("a", "P2", "O2", 10, "p1", 1),
+		actDisable("a", "P1", "O1"),
+		actEnable("a", "P1", "O1", 0),
+		actRefund("a", "P1", "O1"),
+		actUpdate("a", "P1", "O1", 30, "", 0),
+	}
 }
